@@ -192,21 +192,30 @@ def covered_labels(c, comps, calls, hm_cov):
                 # map component: direct call on the map -> what the HashMap impl covers; manual iteration ->
                 # by accessor
                 want = kv[0]
-                if not acc:
-                    if len(ptoks) <= len(plain) and want.strip('<>') in hm_cov:
+                if not acc and len(ptoks) <= len(plain):
+                    # direct call on the map: what the generic HashMap impl covers
+                    if want.strip('<>') in hm_cov:
                         cov.add(lab)
-                    elif len(ptoks) > len(plain):
-                        cov.add(lab)   # projected out of an iterator item, cannot tell K from V: be liberal
+                    continue
+                # manual iteration: which part of the entry does the traced path denote? After the iterator's Some payload a pair
+                # iterator (iter / iter_mut / drain / `for (k, v) in &map`) yields (key, value); keys() / values() yield one of them.
+                rest = list(ptoks[len(plain):])
+                if rest[:2] == ['Some', '0']:
+                    rest = rest[2:]
+                if any(a in ('@keys', '@into_keys') for a in acc):
+                    kind, tail = '<K>', rest
+                elif any(a in ('@values', '@values_mut', '@into_values') for a in acc):
+                    kind, tail = '<V>', rest
+                elif rest and rest[0] in ('0', '1'):
+                    kind, tail = ('<K>' if rest[0] == '0' else '<V>'), rest[1:]
                 else:
-                    # the whole item has to be traced: a call on one variant of it (`if let Value::ObjTuple(t) = key { t.mark() }`) leaves
-                    # every other kind of key / value unreachable for the collector
-                    extra = [x for x in ptoks[len(plain):] if x not in ('Some', '0', '1')]
-                    if extra:
-                        continue
-                    if want == '<K>' and any(a in ('@keys', '@iter', '@iter_mut', '@drain', '@into_keys') for a in acc):
-                        cov.add(lab)
-                    if want == '<V>' and any(a in ('@values', '@iter', '@iter_mut', '@values_mut', '@drain', '@into_values') for a in acc):
-                        cov.add(lab)
+                    kind, tail = None, rest      # the pair itself
+                # the whole key / value has to be traced: a call on one variant of it (`if let Value::ObjTuple(t) = key { t.mark() }`)
+                # leaves every other kind of key unreachable for the collector
+                if tail:
+                    continue
+                if kind is None or kind == want:
+                    cov.add(lab)
             else:
                 cov.add(lab)
     return cov
@@ -257,6 +266,9 @@ def run(rep):
     import c06
     rep.guard(c06.s1, rep, w)     # an open upvalue left pointing into a discarded stack region is a dangling pointer: the closure reads freed memory
     rep.guard(c06.s6, rep, w)
+    import c14, c15
+    rep.guard(c14.m5, rep, w)     # ObjClosure.module is an untraced edge, justified by "modules stay in the registry until reset()": that premise is checked here
+    rep.guard(c15.n5, rep, w)     # the compiler creates nothing but chunks / functions (rooted) and interned strings (immortal): any other object built while compiling has no root yet
     if rep.tier == 'thorough':
         import witness
         witness.run_witnesses(rep, 'C01', ['W1StringConstructorIsPrivate', 'W3RootAsMutIsUnsafe', 'W4GcDanglingIsPrivate', 'W5HeapIsPrivate', 'W6GcIsReadOnly'])
@@ -303,6 +315,24 @@ def r1(rep, w):
     for k in ok_table:
         if k not in used_exc:
             r.note('exception table entry not needed on this tree: ' + k)
+    # tracing is unconditional: the only branches in a mark / blacken body are on the shape of what is being traced (an enum variant, an
+    # Option, an iterator item). A branch on other state of the object ("this vector holds no heap values", a dirty flag) makes the
+    # edge depend on every writer keeping that state exact.
+    for x in res:
+        for which in ('mark', 'blacken'):
+            f = w.fns[x['impl'][which]]
+            org = origins(f)
+            for bi in sorted(f.normal_blocks()):
+                t = f.blocks[bi]['t']
+                if t['t'] != 'switch' or op_place(t['d']) is None:
+                    continue
+                qs = org.get(op_place(t['d'])['l'], ())
+                plain = sorted({'.'.join(tk for tk in q[1:] if not tk.startswith('@') and tk != '*' and not tk.startswith('#')) for q in qs
+                                if q[0][0] == 'arg' and '#discr' not in q[1:] and not any(tk.startswith('@') for tk in q[1:])
+                                and [tk for tk in q[1:] if tk != '*' and not tk.startswith('#')]})
+                key = '%s / %s is unconditional' % (x['adt'], which)
+                r.check(not plain, key, '%s::%s traces under a condition on `%s`, which is not part of what is being traced: the edge is followed only while every writer '
+                        'keeps that state exact' % (x['adt'].rsplit('::', 1)[-1], which, ', '.join(plain)), f.loc(t.get('sp')))
     # container impls and handles
     rc = rep.rule('R1k', 'container / handle impls trace their element parameter', floor=7)
     for im in impls:
@@ -420,6 +450,9 @@ def callers_of(w, target):
     return out
 
 
+from facts import strip_generics as strip_g
+
+
 def r1_support(rep, w):
     """R1s: interned strings are immortal; R1c: core-class edges point at roots held by the Vm"""
     c = w.yarel
@@ -450,12 +483,30 @@ def r1_support(rep, w):
     # no removal API is called on entries: calls on a receiver of type Vec<Option<Root<ObjString>>> are limited
     bad = []
     for fn in c.fns.values():
-        if 'string_store' not in fn.path:
-            continue
+        inside = 'string_store' in fn.path
+        forg = None
+        # (helpers of the store may have been spliced into a caller elsewhere: outside the module only calls on `..string_store.entries` count)
         for bi, t in fn.calls():
             n = callee_name(t) or ''
-            if any(n.endswith(x) for x in ('::remove', '::clear', '::truncate', '::pop', '::swap_remove', '::drain', '::retain')):
+            removal = any(n.endswith(x) for x in ('::remove', '::clear', '::truncate', '::pop', '::swap_remove', '::drain', '::retain'))
+            emptying = strip_g(n).endswith('Option::take') or ((strip_g(n).endswith('mem::take') or strip_g(n).endswith('mem::replace')) and not fn.path.endswith('::adjust_capacity'))
+            if not (removal or emptying) or not t['args'] or op_place(t['args'][0]) is None:
+                continue
+            if forg is None:
+                forg = origins(fn)
+            qs = forg.get(op_place(t['args'][0])['l'], ())
+            on_entries = any('entries' in q and (inside or 'string_store' in q) for q in qs)
+            if removal and inside and not emptying:
                 bad.append('%s calls %s' % (fn.path, n))
+            elif on_entries:
+                bad.append('%s empties a slot of the intern table with %s' % (fn.path, n.rsplit('::', 1)[-1]))
+        for b_ in fn.blocks:
+            for s_ in b_['s']:
+                rr_ = s_.get('r', {})
+                if rr_.get('rv') == 'bin' and rr_['op'].startswith('Sub') and op_place(rr_['a']):
+                    names_ = [e.get('n') for e in op_place(rr_['a']).get('p', []) if isinstance(e, dict)]
+                    if names_[-1:] == ['size'] and (inside or 'string_store' in names_):
+                        bad.append('%s decrements the entry count of the intern table' % fn.path)
     r.check(not bad, 'ObjStringStore: no removal', 'intern table entries can be dropped: %s' % bad)
     ws = sorted({x[0].path for x in field_writers(w, 'yarel::vm::Vm', 'string_store') if x[2] == 'store'})
     r.check(not ws, 'Vm.string_store never reassigned', 'Vm.string_store reassigned in %s' % ws)
